@@ -64,6 +64,10 @@ def listedEdges (o : Oracles S W Wd) (b : BlockDesc S) : List (S × S × W) :=
 
 def key (e : S × S × W) : S × S := (e.1, e.2.1)
 
+def BodyItem.isBlank : BodyItem S → Bool
+  | .blank => true
+  | .edge .. => false
+
 /-- `float()` accepts the weight token of an edge line -/
 def BodyItem.weightOk (o : Oracles S W Wd) : BodyItem S → Bool
   | .edge _ _ _ wt => (o.parseFloat wt).isSome
@@ -106,23 +110,23 @@ def isZero (o : Oracles S W Wd) (b : BlockDesc S) : Bool := o.parseInt b.countTe
 def graphOf (o : Oracles S W Wd) (b : BlockDesc S) : PGraph S W Wd :=
   let g := buildGraph (listedEdges o b)
   { nodes := g.nodes, edges := g.edges, id := (headerTexts b).head?, constraints := constraintsOf b,
-    n := if isZero o b then none else some g.nodes.length,
-    m := if isZero o b then none else some g.edges.length,
-    w := if isZero o b then none else some (o.width g.nodes g.edges) }
+    n := some g.nodes.length, m := some g.edges.length,
+    w := if isZero o b then some o.zeroWidth else some (o.width g.nodes g.edges) }
 
 /-- Well-formedness of a block (all clauses decidable given the oracles):
 1. at least one `#` line (header or `#S`);
 2. the vertex-count line converts with `int()`;
 3. the third token of every edge line converts with `float()`;
 4. every edge of every constraint is the key of a listed edge line;
-5. a zero-vertex block lists no edge; a non-zero block describes a graph with a node without in-edges and a
+5. a zero-vertex block (count converts to 0) describes no constraint (no `#S` sequence with two or more nodes)
+   and its body holds blank lines only; a non-zero block describes a graph with a node without in-edges and a
    node without out-edges (otherwise `stDiGraph` raises). -/
 def WFBlock (o : Oracles S W Wd) (b : BlockDesc S) : Prop :=
   b.hashes ≠ [] ∧
   (o.parseInt b.countText).isSome ∧
   (∀ it ∈ b.body, it.weightOk o = true) ∧
   (∀ c ∈ constraintsOf b, ∀ e ∈ c, e ∈ (listedEdges o b).map key) ∧
-  (if isZero o b then (listedEdges o b).isEmpty = true
+  (if isZero o b then (constraintsOf b).isEmpty = true ∧ b.body.all BodyItem.isBlank = true
    else (buildGraph (listedEdges o b)).hasSource = true ∧ (buildGraph (listedEdges o b)).hasSink = true)
 
 instance (o : Oracles S W Wd) (b : BlockDesc S) : Decidable (WFBlock o b) := by
